@@ -19,6 +19,7 @@ type sop struct {
 	Ref int    `json:"ref"`
 	X   uint32 `json:"x,omitempty"`
 	CC  bool   `json:"cc,omitempty"`
+	F   int    `json:"f,omitempty"`
 }
 
 type seqScript struct {
@@ -34,6 +35,9 @@ func genSeq(r *core.Rng, engine int) *seqScript {
 	for i := 0; i < n; i++ {
 		o := genOp(r, r.Chance(1, 3))
 		so := sop{K: o.K, N: o.N, X: o.X, CC: o.CC, Ref: -1}
+		if (o.K == kInst || o.K == kInstBin) && r.Chance(1, 3) {
+			so.F = 1 + r.Intn(2) // holds an open file; for half of them its Close fails
+		}
 		switch o.K {
 		case kClose, kCloseX, kIsClosed:
 			if len(producers) == 0 {
@@ -81,7 +85,7 @@ func replaySeq(s *seqScript) *seqRun {
 		if _, err = wasi_snapshot_preview1.Instantiate(bg, h.rt); err != nil {
 			panic(err)
 		}
-		h.fsys = newCountFS()
+		h.fsys = newCountFS(false)
 		h.cm, err = h.rt.CompileModule(bg, fsBin)
 	} else {
 		h.cm, err = h.rt.CompileModule(bg, baseBin)
@@ -90,11 +94,12 @@ func replaySeq(s *seqScript) *seqRun {
 		panic(err)
 	}
 	var st mstate
+	failing := map[int]bool{}
 	results := make([]api.Module, len(s.Ops))
 	ids := map[api.Module]int{}
 	var recs []rec
 	for i, o := range s.Ops {
-		sp := opSpec{K: o.K, N: o.N, X: o.X, CC: o.CC}
+		sp := opSpec{K: o.K, N: o.N, X: o.X, CC: o.CC, F: o.F}
 		var hs []api.Module
 		if o.K == kClose || o.K == kCloseX || o.K == kIsClosed {
 			if o.Ref < 0 || o.Ref >= i || results[o.Ref] == nil {
@@ -123,6 +128,13 @@ func replaySeq(s *seqScript) *seqRun {
 			run.opID[i] = id
 		}
 		lo := lop{Client: 1, Kind: r.kind, Name: r.name, ID: id, Res: r.res, Call: r.call, Ret: r.ret, Err: r.err, X: o.X}
+		if r.cfs != nil {
+			lo.F = 1
+			if r.cfs.fail {
+				lo.F = 2
+				failing[id] = true
+			}
+		}
 		lo.fill()
 		run.trace = append(run.trace, lo)
 		run.ops[kindName[r.kind]+"="+resName[r.res]]++
@@ -138,6 +150,9 @@ func replaySeq(s *seqScript) *seqRun {
 		got := r.res
 		if got == rOtherErr {
 			got = rClosedErr // any error is fine once the runtime is closed
+		}
+		if got == rResErr && failing[id] {
+			got = rNone // Close may report the failing resource's error; its effect is the same
 		}
 		want := expect(st, r.kind, r.name, id)
 		wantText := resName[want]
@@ -271,6 +286,17 @@ func shrink(s *seqScript, d *divergence) (*seqScript, *seqRun) {
 			}
 		}
 	}
+	// held files: none if it does not matter, else one that closes fine
+	for i := range cur.Ops {
+		for f := 0; f < cur.Ops[i].F; f++ {
+			c := &seqScript{Engine: cur.Engine, FS: cur.FS, Ops: append([]sop(nil), cur.Ops...)}
+			c.Ops[i].F = f
+			if r := same(c); r != nil && r.div.At == best.div.At {
+				cur, best = c, r
+				break
+			}
+		}
+	}
 	// names: the anonymous name if it does not matter, else the first name
 	for i := range cur.Ops {
 		if !(cur.Ops[i].K.isInst() || cur.Ops[i].K == kLookup) {
@@ -342,7 +368,7 @@ func seqOfHistory(engine int, h []lop) *seqScript {
 	s := &seqScript{Engine: engine}
 	producer := map[int]int{}
 	for _, o := range h {
-		so := sop{K: o.Kind, N: o.Name, X: o.X, Ref: -1}
+		so := sop{K: o.Kind, N: o.Name, X: o.X, Ref: -1, F: o.F}
 		if o.Kind == kClose || o.Kind == kCloseX || o.Kind == kIsClosed {
 			p, ok := producer[o.ID]
 			if !ok {
